@@ -44,6 +44,18 @@ def hostile_name():
     )
 
 
+def foreign_url():
+    """URL as another client may have stored it: the quantifier includes spaces (round 8: a string url-list was tokenised)."""
+    spaced = st.text(alphabet="ab /:.?&=%+#é", min_size=3, max_size=24).filter(
+        lambda u: " " in u.strip() and u.strip() == u)
+    return st.one_of(edits.url(), edits.url(), spaced,
+                     st.sampled_from(["http://seed.example/my files/", "http://t.example/an nounce?k=a b", "a b  c"]))
+
+
+def foreign_url_list():
+    return st.lists(foreign_url(), min_size=1, max_size=3)
+
+
 def strategy(tier):
     own = st.fixed_dictionaries({
         "kind": st.just("own"),
@@ -59,9 +71,9 @@ def strategy(tier):
         "name": hostile_name(),
         "top": st.lists(st.sampled_from(sorted(EXTRA_TOP)), unique=True, max_size=3),
         "info": st.lists(st.sampled_from(sorted(EXTRA_INFO)), unique=True, max_size=4),
-        "tiers": st.one_of(st.none(), st.lists(edits.url_list(), min_size=1, max_size=3)),
+        "tiers": st.one_of(st.none(), st.lists(foreign_url_list(), min_size=1, max_size=3)),
         "announce_only": st.booleans(),
-        "url_list": st.one_of(st.none(), edits.url_list(), edits.url()),
+        "url_list": st.one_of(st.none(), foreign_url_list(), foreign_url()),
     })
 
     @st.composite
